@@ -16,7 +16,7 @@ NMEMBERS = 4
 
 def render(vals=None):
     v = vals or {'wg': (1, 2, 3), 'res': 'struct', 'members': [('loc', 0), ('builtin', 0), ('loc', 1), ('loc', 2)], 'loc': 0,
-                 'extra_stage': 2}
+                 'extra_stage': 2, 'res2': 'none', 'loc2': 0}
     out = ['struct VIn { @location(0) a: vec4<f32>, @location(1) b: vec2<f32> }',
            'struct VInst { @location(2) m: vec4<f32> }', 'struct VBuiltins { @builtin(vertex_index) vi: u32, @builtin(instance_index) ii: u32 }']
     ms = []
@@ -44,7 +44,15 @@ def render(vals=None):
     if st == 0:
         out.append(f'@vertex fn {NAMES["extra"]}() -> @builtin(position) vec4<f32> {{ return vec4<f32>(0.0); }}')
     elif st == 1:
-        out.append(f'@fragment fn {NAMES["extra"]}() {{}}')
+        r2 = v.get('res2', 'none')
+        if r2 == 'loc':
+            out.append(f'@fragment fn {NAMES["extra"]}() -> @location({v["loc2"]}u) vec4<f32> {{ return vec4<f32>(0.0); }}')
+        elif r2 == 'builtin':
+            out.append(f'@fragment fn {NAMES["extra"]}() -> @builtin(frag_depth) f32 {{ return 0.0; }}')
+        elif r2 == 'struct':
+            out.append(f'@fragment fn {NAMES["extra"]}() -> FOut {{ var o: FOut; return o; }}')
+        else:
+            out.append(f'@fragment fn {NAMES["extra"]}() {{}}')
     else:
         out.append(f'@compute @workgroup_size(1) fn {NAMES["extra"]}() {{}}')
     return '\n'.join(out) + '\n'
@@ -84,8 +92,19 @@ def build(ctx):
         return c.sym_enum('Binding', kind, {'BuiltIn': [Opaque('builtin')], 'Location': [loc, False, none(), none()]})
     rb = Agg('Option', {'Some': [binding(h.res_kind, h.res_loc)], 'None': []},
              disc=z3.If(h.res_bound, z3.BitVecVal(1, 64), z3.BitVecVal(0, 64)))
-    fr = Agg('FunctionResult', [fout, rb])
+    hvec4 = next(i for i, t in enumerate(mj['types']) if t['inner'].get('Vector') == {'size': 'Quad', 'scalar': {'kind': 'Float', 'width': 4}})
+    hf32 = next(i for i, t in enumerate(mj['types']) if t['inner'].get('Scalar') == {'kind': 'Float', 'width': 4})
+    bv32 = lambda v_: z3.BitVecVal(v_, 32)
+    # the result TYPE goes with the shape: struct -> FOut, @location -> vec4<f32>, builtin frag_depth -> f32 (as rendered)
+    res_ty = lambda bound, kind: z3.If(bound, z3.If(kind == B['Location'], bv32(hvec4), bv32(hf32)), bv32(fout))
+    fr = Agg('FunctionResult', [res_ty(h.res_bound, h.res_kind), rb])
     c.set(fs, 'result', Agg('Option', {'Some': [fr], 'None': []}, disc=z3.If(h.has_res, z3.BitVecVal(1, 64), z3.BitVecVal(0, 64))))
+    # the extra entry (a second fragment entry when its stage says so) has a result of its own: same type handle, own binding
+    h.has_res2, h.res_bound2 = z3.Bool('extra_has_result'), z3.Bool('extra_result_has_binding')
+    h.res_kind2, h.res_loc2 = z3.BitVec('extra_result_binding_kind', 64), z3.BitVec('extra_result_location', 32)
+    rb2 = Agg('Option', {'Some': [binding(h.res_kind2, h.res_loc2)], 'None': []}, disc=z3.If(h.res_bound2, z3.BitVecVal(1, 64), z3.BitVecVal(0, 64)))
+    c.set(c.get(eps[idx[NAMES['extra']]], 'function'), 'result',
+          Agg('Option', {'Some': [Agg('FunctionResult', [res_ty(h.res_bound2, h.res_kind2), rb2])], 'None': []}, disc=z3.If(h.has_res2, z3.BitVecVal(1, 64), z3.BitVecVal(0, 64))))
     # members of FOut
     types = c.get(module, 'types').fields[0].items
     members = c.get(types[fout], 'inner').fields[0].items
@@ -96,7 +115,9 @@ def build(ctx):
         c.set(mb, 'binding', some(binding(k, l)))
         h.mk.append(k)
         h.ml.append(l)
-    h.assume = [z3.ULT(h.extra_stage, 3), z3.ULT(h.res_kind, 2)] + [z3.ULT(k, 2) for k in h.mk]
+    h.assume = [z3.ULT(h.extra_stage, 3), z3.ULT(h.res_kind, 2), z3.ULT(h.res_kind2, 2)] + [z3.ULT(k, 2) for k in h.mk]
+    # only a fragment entry's result is rendered from the holes (a vertex entry returns the position, a compute entry nothing)
+    h.assume.append(z3.Implies(h.extra_stage != 1, z3.Not(h.has_res2)))
     # WGSL: the @location numbers of one struct are distinct
     for i in range(len(h.mk)):
         for j in range(i):
@@ -113,25 +134,29 @@ def expected_targets(h):
         need = z3.If(k == h.B['Location'], z3.ZeroExt(32, l) + one, zero)
         smax = z3.If(z3.UGT(need, smax), need, smax)
     direct = z3.If(h.res_kind == h.B['Location'], z3.ZeroExt(32, h.res_loc) + one, zero)
+    direct2 = z3.If(h.res_kind2 == h.B['Location'], z3.ZeroExt(32, h.res_loc2) + one, zero)
+    h.want_t2 = z3.If(h.has_res2, z3.If(h.res_bound2, direct2, smax), zero)
     return z3.If(h.has_res, z3.If(h.res_bound, direct, smax), zero)
 
 
 def vals_of(h, m):
     g = lambda t: model_value(m, t)
     res = 'none' if not g(h.has_res) else ('struct' if not g(h.res_bound) else ('loc' if g(h.res_kind) == h.B['Location'] else 'builtin'))
-    return {'wg': tuple(g(w) for w in h.wg), 'res': res, 'loc': g(h.res_loc),
+    res2 = 'none' if not g(h.has_res2) else ('struct' if not g(h.res_bound2) else ('loc' if g(h.res_kind2) == h.B['Location'] else 'builtin'))
+    return {'wg': tuple(g(w) for w in h.wg), 'res': res, 'loc': g(h.res_loc), 'res2': res2, 'loc2': g(h.res_loc2),
             'members': [('loc' if g(k) == h.B['Location'] else 'builtin', g(l)) for k, l in zip(h.mk, h.ml)],
             'extra_stage': g(h.extra_stage)}
 
 
 def expected_concrete(v):
-    if v['res'] == 'none' or v['res'] == 'builtin':
-        t = 0
-    elif v['res'] == 'loc':
-        t = v['loc'] + 1
-    else:
-        t = max([l + 1 for k, l in v['members'] if k == 'loc'] or [0])
-    return {'targets': t, 'wg': list(v['wg']), 'extra_stage': v['extra_stage']}
+    def targets(res, loc):
+        if res == 'none' or res == 'builtin':
+            return 0
+        if res == 'loc':
+            return loc + 1
+        return max([l + 1 for k, l in v['members'] if k == 'loc'] or [0])
+    return {'targets': targets(v['res'], v['loc']), 'wg': list(v['wg']), 'extra_stage': v['extra_stage'],
+            'extra_targets': targets(v.get('res2', 'none'), v.get('loc2', 0)) if v['extra_stage'] == 1 else None}
 
 
 def facts(d, names=NAMES):
@@ -195,7 +220,7 @@ def static_conditions(f, extra_stage_concrete, names=NAMES):
         if e == 0 and f['extra_v']:
             cs.append(('vertex helper without struct parameters has no buffers', f['extra_v']['n_ret'] == 0 and f['extra_v']['buffers'] == []))
         if e == 1 and f['extra_f']:
-            cs.append(('fragment entry without result asks for no targets', f['extra_f']['n_param'] == 0 and f['extra_f']['n_ret'] == 0))
+            cs.append(('second fragment helper names its own entry', f['extra_f']['fields'].get('entry_point') == f'ENTRY_{up["extra"]}'))
     return cs
 
 
@@ -203,7 +228,7 @@ def run(ctx):
     module, h = build(ctx)
     src = h.src
     ctx.bounds = {'entries': '4 (vertex with 3 struct parameters, one of them made of builtins only; fragment; compute; one of symbolic stage)',
-                  'fragment result': f'none / @location(l) / builtin / struct of {NMEMBERS} members each builtin or @location(l_i); l over all u32',
+                  'fragment result': f'none / @location(l) / builtin / struct of {NMEMBERS} members each builtin or @location(l_i); l over all u32; the extra entry, when a fragment entry, has its own symbolic result of the same type',
                   'workgroup size': '3 x all of u32', 'names': list(NAMES.values())}
     ctx.assumptions += ['"as many colour targets as are needed to address every @location" = 1 + the highest location written (0 if none)',
                         'entry names are concrete (mixed case, non-ASCII, digits): string case mapping is not symbolic',
@@ -242,12 +267,17 @@ def run(ctx):
         conds = [(n, z3.BoolVal(bool(b))) for n, b in static_conditions(f, None)]
         # stage-dependent part: the path must agree with the stage the pc allows
         for e in range(3):
-            sc = [b for n, b in static_conditions(f, e) if n.startswith(('extra', 'vertex helper without', 'fragment entry without'))]
+            sc = [b for n, b in static_conditions(f, e) if n.startswith(('extra', 'vertex helper without', 'second fragment helper'))]
             conds.append((f'extra entry helpers (stage {e})', z3.Implies(h.extra_stage == e, z3.BoolVal(all(sc)))))
         if f['fs']:
             for nm in ('n_param', 'n_ret'):
                 v_ = f['fs'][nm]
                 conds.append(('fragment target count', (v_ == want_t) if is_sym(v_) else (want_t == z3.BitVecVal(v_, 64))))
+        if f['extra_f']:
+            for nm in ('n_param', 'n_ret'):
+                v_ = f['extra_f'][nm]
+                conds.append(('fragment target count of the second fragment entry',
+                              z3.Implies(h.extra_stage == 1, (v_ == h.want_t2) if is_sym(v_) else (h.want_t2 == z3.BitVecVal(v_, 64)))))
         wgs = f['wg'].get(f'{up["cs"]}_WORKGROUP_SIZE')
         if wgs:
             for got, w in zip(wgs, h.wg):
@@ -296,6 +326,10 @@ def replay(ctx, v, name):
     det['real'] = real
     if real['targets'] != exp['targets'] or real['targets_ret'] != exp['targets']:
         bad.append('fragment target count')
+    if exp['extra_targets'] is not None:
+        real['extra_targets'] = (f['extra_f'] or {}).get('n_param')
+        if real['extra_targets'] != exp['extra_targets'] or (f['extra_f'] or {}).get('n_ret') != exp['extra_targets']:
+            bad.append('fragment target count of the second fragment entry')
     if real['wg'] != exp['wg']:
         bad.append('workgroup size value')
     det['failed'] = bad
@@ -309,7 +343,10 @@ def native(ctx):
         locs = ctx.rng.sample([0, 1, 2, 3, 5, 7], NMEMBERS)
         v = {'wg': tuple(ctx.rng.choice([1, 2, 64, 65535, 2 ** 32 - 1]) for _ in range(3)),
              'res': ctx.rng.choice(['none', 'loc', 'builtin', 'struct']), 'loc': ctx.rng.choice([0, 1, 3, 7]),
-             'members': [(ctx.rng.choice(['loc', 'loc', 'builtin']), l) for l in locs], 'extra_stage': ctx.rng.randrange(3)}
+             'members': [(ctx.rng.choice(['loc', 'loc', 'builtin']), l) for l in locs], 'extra_stage': ctx.rng.randrange(3),
+             'res2': ctx.rng.choice(['none', 'loc', 'loc', 'struct']), 'loc2': ctx.rng.choice([0, 2, 5])}
+        if v['res'] == 'builtin' and v['res2'] == 'builtin':
+            v['res2'] = 'loc'
         if sum(1 for k_, _ in v['members'] if k_ == 'builtin') > 2:
             continue
         rep, det = replay(ctx, v, '')
